@@ -37,6 +37,8 @@ structure World where
   files : List File
   ofds : List Ofd
   noclobber : Bool
+  /-- `Env::is_interactive()` of the main shell process -/
+  interactive : Bool := false
   /-- number of descriptor allocations so far / the allocation the oracle strikes at -/
   allocs : Nat := 0
   denyAt : Option Nat := none
@@ -139,10 +141,10 @@ def initialFiles : List File :=
 
 /-- `VirtualSystem::new`: descriptors 0, 1, 2 on /dev/stdin, /dev/stdout, /dev/stderr, read-write and
     appending -/
-def stdWorld (noclobber : Bool) : World :=
+def stdWorld (noclobber : Bool) (interactive : Bool := false) : World :=
   { files := initialFiles,
     ofds := [⟨0, true, true, true, 0⟩, ⟨1, true, true, true, 0⟩, ⟨2, true, true, true, 0⟩],
-    noclobber := noclobber }
+    noclobber := noclobber, interactive := interactive }
 
 def stdTable : FdTable :=
   { slots := [some ⟨0, false⟩, some ⟨1, false⟩, some ⟨2, false⟩], limit := none }
@@ -160,6 +162,9 @@ inductive Kind where
   | exec         -- `exec` without operands
   | paren        -- `( fds )`: the guard is the parent's, the body runs in a child
   | commandExec  -- `command exec`: a regular built-in whose result asks to retain the redirections
+  | execNotFound -- `exec nosuchcmd`: the operand is not found (127)
+  | execNoExec   -- `exec /tmp/a`: the operand exists but cannot be executed (126)
+  | commandExecNotFound -- `command exec nosuchcmd`
   | dot          -- `. /tmp/s` where the script runs `fds`
   | dotMissing   -- `. /tmp/a/e`: the script cannot be opened
   deriving DecidableEq, Repr
@@ -197,6 +202,28 @@ def probeIO (w : World) (t : FdTable) : World × Bool × (Option (List Nat) × B
     | some (w2, bs) => (w2, wrote, (some bs, tainted))
     | none => (w1, wrote, (none, tainted))
 
+/-- kinds whose built-in is `exec` (its result always asks to retain the redirections) -/
+def Kind.isExec : Kind → Bool
+  | .exec | .commandExec | .execNotFound | .execNoExec | .commandExecNotFound => true
+  | _ => false
+
+/-- kinds that are special built-ins: a redirection error (or an error the built-in reports)
+    interrupts the shell -/
+def Kind.isSpecial : Kind → Bool
+  | .special | .colon | .exec | .execNotFound | .execNoExec | .dot | .dotMissing => true
+  | _ => false
+
+/-- `Divert::Interrupt` from a special built-in, or `Divert::Abort` from an `exec` that could not
+    invoke its operand: a non-interactive shell ends here with that status; the interactive
+    read-eval loop recovers from the interrupt (and `exec` does not abort) and goes on -/
+def endOrGoOn (w : World) (t : FdTable) (st : Nat) (saved : List SavedFd) : Trace :=
+  if w.interactive then { w := w, t := t, status := some st, saved := saved }
+  else { w := w, t := t, status := none, exited := some st, saved := saved }
+
+@[simp] theorem endOrGoOn_t (w : World) (t : FdTable) (st : Nat) (saved : List SavedFd) :
+    (endOrGoOn w t st saved).t = t := by
+  unfold endOrGoOn; split <;> rfl
+
 /-- `execute_builtin` / `execute_function` / `execute_external_utility` /
     `FullCompoundCommand::execute` / `execute_absent_target` around the guard -/
 def runCommand (w : World) (t : FdTable) (k : Kind) (rs : List Redir) (prev : Nat := 0) : Trace :=
@@ -215,13 +242,16 @@ def runCommand (w : World) (t : FdTable) (k : Kind) (rs : List Redir) (prev : Na
     | some _ =>
       let w1 := g.w.message g.t
       let t1 := undoRedirs g.t g.saved
-      if k == .special || k == .colon || k == .exec || k == .dot || k == .dotMissing then
-        { w := w1, t := t1, status := none, exited := some 2 }
-      else { w := w1, t := t1, status := some 2 }
+      if k.isSpecial then endOrGoOn w1 t1 2 [] else { w := w1, t := t1, status := some 2 }
     | none =>
       match k with
       | .exec | .commandExec =>
         { w := g.w, t := preserveRedirs g.t g.saved, status := some 0, saved := g.saved }
+      -- `exec` with an operand that cannot be invoked: message, `should_retain_redirs` all the same;
+      -- `Abort` unless the shell is interactive (`command exec`: the same result passes through)
+      | .execNotFound | .commandExecNotFound =>
+        endOrGoOn (g.w.message g.t) (preserveRedirs g.t g.saved) 127 g.saved
+      | .execNoExec => endOrGoOn (g.w.message g.t) (preserveRedirs g.t g.saved) 126 g.saved
       | .colon => { w := g.w, t := undoRedirs g.t g.saved, status := some 0, saved := g.saved }
       | .dot | .dotMissing =>
         -- `source::Command::execute`: open + `move_fd_internal`, read-eval loop, `close(fd)`;
@@ -229,8 +259,7 @@ def runCommand (w : World) (t : FdTable) (k : Kind) (rs : List Redir) (prev : Na
         let r := openScript worldOracle g.w g.t (if k == .dot then 10 else pathEnotdir)
         match r.2.2 with
         | none =>
-          { w := r.1.message r.2.1, t := undoRedirs r.2.1 g.saved, status := none, exited := some 1,
-            saved := g.saved }
+          endOrGoOn (r.1.message r.2.1) (undoRedirs r.2.1 g.saved) 1 g.saved
         | some fd =>
           let (w1, wrote, rd) := probeIO r.1 r.2.1
           { w := w1, t := undoRedirs (r.2.1.close fd) g.saved, during := some (r.1, r.2.1),
